@@ -6,6 +6,7 @@ entry point (Server.parse_authn_request / parse_attribute_query / parse_authn_qu
 Entity.parse_logout_request / parse_manage_name_id_request) of a receiver built from a real
 configuration.  Observed: the verdict (object returned / None / exception class).  Coq evaluates the
 model C07.Model.parse_request on the abstract input and the boolean spec on the observed verdict."""
+import ast
 import base64
 import copy
 import json
@@ -17,46 +18,215 @@ from harness import env, fixtures, render, spaccept, world
 from harness.common import Raw, cq, cq_opt
 
 PID = "C07"
-PARALLEL = 6
-CASE_TYPE = "C07.Corr.case"
+PARALLEL = 12
+CASE_TYPE = "C07.Corr.tcase"
 RUNNER = "C07.Corr.run"
 FINDING_CLASSES = {}
-RULE = ("block sig: complete product receiver/request kind(8) x requirement(unset,False,True,cert-only)(4) x "
-        "[Redirect x enveloped state(10) x detached state(16) | {POST,SOAP} x enveloped state(10) x detached{absent,valid,"
-        "garbage}] with the remaining dimensions (issuer entity, only_use_keys_in_metadata, validate_certificate, skew, "
-        "endpoint configuration, Destination, Version, IssueInstant) drawn mostly-valid from the seeded PRNG; quick tier: "
-        "the kind x requirement x binding x enveloped x detached product is covered pairwise-completely (every pair of "
-        "values of every two dimensions, greedy covering array) plus a seeded sample of the full product, thorough: the "
-        "full product.  block addr: complete product endpoint configuration(8) x Destination class(13) x binding(3) and "
-        "Version(7) x IssueInstant offset(15 incl. both window edges +-1 s, with fraction) x skew(4), each with all signature "
-        "dimensions valid-as-required.  block key: issuer entity(7: one key, another key, two keys in both orders, known without signing key, "
-        "unknown, none) x signer(4) x KeyInfo(2) x only_use_keys_in_metadata(2) x validate_certificate(2) x cert-only(2) x content "
-        "altered(2).  block wire: binding(8 incl. unknown, None) x transport encoding(5) x kind mismatch; block schema: the "
-        "five schema/instance validity shapes x signed/unsigned.  non-trivial = distinct (receiver, kind, binding, "
-        "requirement, enveloped class, detached class, destination class, version, offset class, schema shape, verdict)")
+RULE = ("block sig: complete product receiver/request class(11: every class of request.SERVICE2REQUEST at its entry point) x "
+        "requirement(unset,False,True,cert-only)(4) x [Redirect x enveloped state(10) x detached state(16) | {POST,SOAP} x "
+        "enveloped state(10) x detached{absent,valid,garbage}] with the remaining dimensions (issuer entity, "
+        "only_use_keys_in_metadata, validate_certificate, skew, endpoint configuration, Destination, Version, IssueInstant) "
+        "drawn mostly-valid from the seeded PRNG; quick tier: pairwise-complete covering array of the five dimensions + the "
+        "COMPLETE product with all other dimensions valid (every class x requirement x enveloped state x {POST, SOAP}; on "
+        "Redirect x all 16 detached states for the classes whose entry point takes them, x {absent, valid, garbage} for the "
+        "others) + a seeded sample of the full product; thorough: the full product.  block addr: complete product endpoint "
+        "configuration(8) x Destination class(14) x binding(3) and Version(7) x IssueInstant offset(15 incl. both window edges "
+        "+-1 s, with fraction) x skew(4), each with all signature dimensions valid-as-required; every (skew, offset) also in "
+        "four process time zones (TZ=JST-9, EST5, UTC0, a half-hour zone with DST; time.tzset() around the call).  block key: "
+        "issuer entity(7) x signer(4) x KeyInfo(2) x only_use_keys_in_metadata(2) x validate_certificate(2) x cert-only(2) x "
+        "content altered(2).  block wire: binding(8 incl. unknown, None) x transport encoding(5) x kind mismatch; block "
+        "schema: validity shapes x signed/unsigned.  block lives (a case = the life of a process, observed in a process of "
+        "its own): metadata generations G0..G6 (requester's key rolled over / both keys in either order / signing key "
+        "withdrawn / entity removed / old key given to another entity); (1) roll-over on one long-lived receiver, for every "
+        "signature path(8) x generation pair: probe every signer(3), reload (Entity.reload_metadata | MetadataStore.reload), "
+        "probe, failed reload, probe, reload back, probe; (2) two receiver objects with different metadata in one process, "
+        "probes interleaved, each reloaded in turn; (3) embedded-certificate fallback across reloads; (4) two receivers with "
+        "different requirement / endpoints, both orders; (5) seeded random walks over 1-3 receivers of any type: any request, "
+        "reloads, failed reloads, time zones.  non-trivial = distinct (receiver, class, binding, requirement, enveloped "
+        "class, detached class, signer, destination class, version, offset class, time zone, schema shape, verdict); a life "
+        "counts when it has a change of state or a second receiver, distinct by its sequence of (operation, request key, verdict)")
+
+
 def regenerate_tables(ctx):
-    """Translator: Request._verify as it reads NOW -> coq/gen/C07Src.v; C07/Source.v proves it equal to the model's
-    version / Destination tests (the result of issue_instant_ok() is a parameter)."""
+    """Translators.  v1: Request._verify as it reads NOW -> coq/gen/C07Src.v; C07/Source.v proves it equal to the model's
+    version / Destination tests (the result of issue_instant_ok() is a parameter).  v2: Request.sender,
+    Request._do_redirect_sig_check, SecurityContext.correctly_signed_message, Entity._parse_request -> coq/gen/C07Src2.v and
+    Request._loads -> coq/gen/C07Src2l.v; C07/Source2.v proves each equal to the model function it mirrors."""
     import os
-    from harness import common, py2coq
-    return py2coq.regenerate(os.path.join(common.GEN, "C07Src.v"), [
+    from harness import common, py2coq, py2coq2
+    v1 = py2coq.regenerate(os.path.join(common.GEN, "C07Src.v"), [
         (os.path.join(env.SRC, "saml2", "request.py"), "Request._verify",
          {"name": "src_request_verify", "params": ["self"], "extra_params": [("issue_instant_ok", "pyval")],
           "calls": {"self.issue_instant_ok": lambda a: "issue_instant_ok"}})])
+    v2 = py2coq2.regenerate(os.path.join(common.GEN, "C07Src2.v"), source2_items())
+    v2l = regenerate_loads(os.path.join(common.GEN, "C07Src2l.v"))
+    out = dict(v1)
+    for k in ("obligations", "discharged"):
+        out[k] = v1.get(k, 0) + v2[k] + v2l[k]
+    out["untranslatable"] = list(v1.get("untranslatable", [])) + list(v2["untranslatable"]) + list(v2l["untranslatable"])
+    out["translated"] = list(v1.get("translated", [])) + list(v2["translated"]) + list(v2l["translated"])
+    out["changed"] = bool(v1.get("changed")) or bool(v2["changed"]) or bool(v2l["changed"])
+    out["source2"], out["source2_loads"] = v2, v2l
+    return out
+
+
+# ---------------------------------------------------------------------------- translator v2: what is translated, and how
+REDIRECT_URN = "urn:oasis:names:tc:SAML:2.0:bindings:HTTP-Redirect"
+
+
+def _kwlist(pairs):
+    return "[%s]" % "; ".join('("%s", %s)' % (k, v) for k, v in pairs)
+
+
+def source2_items():
+    """[(source file, qualified name, spec)] for harness/py2coq2.py.  External calls (XML parsing, xmlsec1, RSA, metadata
+    and configuration lookups, object construction) become extra parameters of the Gallina definitions; C07/Source2.v
+    quantifies over them (Section variables + hypotheses)."""
+    import os
+
+    req = os.path.join(env.SRC, "saml2", "request.py")
+    ent = os.path.join(env.SRC, "saml2", "entity.py")
+    sig = os.path.join(env.SRC, "saml2", "sigver.py")
+    sigerr = {"SignatureError": ["SigverError", "SAMLError", "Exception"]}
+    return [
+        # who sent it: the Issuer text, stripped (AttributeError when there is no Issuer)
+        (req, "Request.sender", {"name": "src2_sender", "params": ["self"], "attr_errors": True}),
+        # the detached signature verifies under SOME signing certificate metadata has for the sender; certificates that
+        # are no certificates are skipped, any other failure propagates
+        (req, "Request._do_redirect_sig_check", {
+            "name": "src2_redirect_sig_check", "params": ["self", "_saml_msg"], "attr_errors": True,
+            "extra_params": [("md_certs", "pyval -> pyval"), ("verify_sig", "pyval -> pyval -> pyval")],
+            "ignore_calls": ["logger.debug", "logger.warning"],
+            "calls": {"self.sender": lambda a: "(src2_sender v_self)" if not a else "PErr",
+                      "self.sec.metadata.certs":
+                          lambda a: "(md_certs %s)" % a[0] if a[1:] == ['(PStr "any")', '(PStr "signing")'] else "PErr",
+                      "verify_redirect_signature": lambda a: "(verify_sig %s %s)" % (a[0], a[2]) if len(a) == 3 else "PErr"}}),
+        # signature present => _check_signature decides; absent => error exactly when it must be there; wrong class => TypeError
+        (sig, "SecurityContext.correctly_signed_message", {
+            "name": "src2_correctly_signed_message",
+            "params": ["self", "decoded_xml", "msgtype", "must", "origdoc", "only_valid_cert"],
+            "extra_params": [("parse", "pyval -> pyval -> pyval"), ("check_sig", "pyval -> pyval -> pyval -> pyval -> pyval")],
+            "globals": {"saml": "PNone", "samlp": "PNone"}, "exc_parents": sigerr,
+            "calls": {"getattr": lambda a: "PNone" if len(a) == 3 else "PErr",
+                      "_func": lambda a: "(parse v_attr %s)" % a[0] if len(a) == 1 else "PErr",
+                      "class_name": lambda a: '(PStr "cls")',
+                      "err_msg.format": lambda a, kw: '(PStr "")',
+                      "self._check_signature":
+                          lambda a, kw: "(check_sig %s %s %s %s)" % (a[0], a[1], kw["must"], kw["only_valid_cert"])
+                          if len(a) == 4 and sorted(kw) == ["must", "only_valid_cert"] else "PErr"}}),
+        # receiver addresses (own role, then aa / aq / pdp for an idp), clock skew, must / only_valid_cert from the idp
+        # section, what is handed to Request.loads, verify() honoured
+        (ent, "Entity._parse_request", {
+            "name": "src2_parse_request",
+            "params": ["self", "enc_request", "request_cls", "service", "binding", "relay_state", "sigalg", "signature"],
+            "extra_params": [("endpoint", "pyval -> pyval -> pyval -> pyval"), ("cfg_getattr", "pyval -> pyval -> pyval"),
+                             ("unravel", "pyval -> pyval -> pyval -> pyval"), ("mk_request", "pyval -> pyval -> pyval -> pyval"),
+                             ("loads", "pyval -> list (string * pyval) -> pyval"), ("verify", "pyval -> pyval")],
+            "attr_errors": True, "globals": {"logger": '(PObj [("__class__", PStr "Logger"); ("debug", PNone)])'},
+            "ignore_calls": ["_log_debug", "logger.error"],
+            "calls": {"self.config.endpoint": lambda a: "(endpoint %s %s %s)" % tuple(a) if len(a) == 3 else "PErr",
+                      "self.config.getattr": lambda a: "(cfg_getattr %s %s)" % tuple(a) if len(a) == 2 else "PErr",
+                      "self.unravel": lambda a: "(unravel %s %s %s)" % tuple(a) if len(a) == 3 else "PErr",
+                      "request_cls": lambda a, kw: "(mk_request %s %s v_request_cls)" % (a[1], kw["timeslack"])
+                      if len(a) == 3 and sorted(kw) == ["timeslack"] else "PErr",
+                      "_request.loads": lambda a, kw: "(loads v__request %s)" % _kwlist(
+                          [("xmlstr", a[0]), ("binding", a[1])] + sorted(kw.items())) if len(a) == 2 else "PErr",
+                      "_request.verify": lambda a: "(verify v__request)" if not a else "PErr"}}),
+    ]
+
+
+class _RaiseBound(ast.NodeTransformer):
+    """py2coq2 refuses `raise name` for a local name.  Request._loads builds its exception once
+    (`incorrectly_signed = IncorrectlySigned("...")`) and raises it from five places.  This transformer rewrites
+    `raise name [from e]` into `raise Cls(<constants>) [from e]` when -- and only when -- `name` is assigned exactly once in
+    the function, at the top level of its body, from a call of a bare class name with constant arguments.  Anything else
+    is left alone (and then refused by the translator: fail-closed)."""
+
+    def __init__(self, fn):
+        stores = {}
+        for n in ast.walk(fn):
+            if isinstance(n, ast.Name) and isinstance(n.ctx, (ast.Store, ast.Del)):
+                stores[n.id] = stores.get(n.id, 0) + 1
+            if isinstance(n, ast.ExceptHandler) and n.name:
+                stores[n.name] = stores.get(n.name, 0) + 1
+        self.bound = {}
+        for s in fn.body:
+            if (isinstance(s, ast.Assign) and len(s.targets) == 1 and isinstance(s.targets[0], ast.Name)
+                    and isinstance(s.value, ast.Call) and isinstance(s.value.func, ast.Name) and not s.value.keywords
+                    and all(isinstance(a, ast.Constant) for a in s.value.args) and stores.get(s.targets[0].id) == 1
+                    and s.targets[0].id not in [a.arg for a in fn.args.args]):
+                self.bound[s.targets[0].id] = s.value
+
+    def visit_Raise(self, node):
+        if isinstance(node.exc, ast.Name) and node.exc.id in self.bound:
+            return ast.copy_location(ast.Raise(exc=self.bound[node.exc.id], cause=node.cause), node)
+        return node
+
+
+def loads_spec():
+    return {"name": "src2_loads",
+            "params": ["self", "xmldata", "binding", "origdoc", "must", "only_valid_cert", "relay_state", "sigalg", "signature"],
+            "extra_params": [("signature_check", "pyval -> pyval -> pyval -> pyval -> pyval"),
+                             ("redirect_sig_check", "pyval -> pyval -> pyval"), ("valid_instance", "pyval -> pyval")],
+            "globals": {"BINDING_HTTP_REDIRECT": "(PStr %s)" % cq(REDIRECT_URN)},
+            "ignore_calls": ["logger.debug", "logger.error", "logger.info"],
+            "exc_parents": {"NotValid": ["Exception"], "IncorrectlySigned": ["SAMLError", "Exception"]},
+            "calls": {"IncorrectlySigned": lambda a: "PNone",      # the instance itself is only ever raised (see _RaiseBound)
+                      "self.signature_check": lambda a, kw: "(signature_check %s %s %s %s)" % (
+                          a[0], kw["origdoc"], kw["must"], kw["only_valid_cert"])
+                      if len(a) == 1 and sorted(kw) == ["must", "only_valid_cert", "origdoc"] else "PErr",
+                      "self._do_redirect_sig_check": lambda a: "(redirect_sig_check v_self %s)" % a[0] if len(a) == 1 else "PErr",
+                      "valid_instance": lambda a: "(valid_instance %s)" % a[0] if len(a) == 1 else "PErr"}}
+
+
+def regenerate_loads(gen_path):
+    """Request._loads -> coq/gen/C07Src2l.v, through py2coq2.translate_def after _RaiseBound (fail-closed like
+    py2coq2.regenerate: what cannot be translated becomes a poisoned definition)."""
+    import os
+    from harness import common, py2coq2
+
+    q, spec = "Request._loads", loads_spec()
+    failed = []
+    try:
+        with open(os.path.join(env.SRC, "saml2", "request.py")) as f:
+            fn = py2coq2.find_function(ast.parse(f.read()), q)
+        fn = ast.fix_missing_locations(_RaiseBound(fn).visit(fn))
+        body = py2coq2.translate_def(fn, spec, "saml2/request.py:%s (raise of the pre-built exception rewritten by harness/c07.py)" % q)
+    except (py2coq2.Untranslatable, OSError, SyntaxError) as e:
+        failed.append("%s: %s" % (q, e))
+        body = py2coq2.poison(q, spec, str(e))
+    changed = common.write_if_changed(gen_path, py2coq2.HEADER + body)
+    return {"translated": [q], "untranslatable": failed, "changed": changed, "obligations": 1, "discharged": 1 - len(failed)}
 
 
 TRUSTED = ["source-to-Gallina translator harness/py2coq.py + coq/theories/Base/Py.v (Request._verify is re-translated from the source "
            "text on every run; c07_source_request_verify proves it equal to the model)",
+           "translator v2 harness/py2coq2.py + coq/theories/Base/Py2.v (semantics and trusted base: notes/translator_v2.md); "
+           "re-translated on every run and proved equal to the model function they mirror (C07/Source2.v, theorems "
+           "c07_source2_*): request.py Request.sender, Request._do_redirect_sig_check, Request._loads (after the syntactic "
+           "rewrite `raise <name bound once to Cls(consts)>` -> `raise Cls(consts)` of harness/c07.py:_RaiseBound), "
+           "sigver.py SecurityContext.correctly_signed_message, entity.py Entity._parse_request; their external calls "
+           "(XML parsing, _check_signature, verify_redirect_signature, metadata.certs, Config.endpoint / getattr, unravel, "
+           "Request construction, valid_instance) are universally quantified functions under the hypotheses of each theorem",
            "xmlsec1 stand-in (harness/standin/xmlsec1.py) for enveloped signatures; RSA PKCS#1 v1.5 via `cryptography` for "
            "detached ones", "renderer harness/render.py, metadata templates harness/world.py",
            "abstraction in harness/c07.py: fixture key pair / certificate <-> number, concrete text <-> (version, destination, "
-           "issue instant, issuer, schema flags), exception class <-> verdict"]
+           "issue instant, issuer, schema flags), exception class <-> verdict",
+           "lives: each life is observed in a child of a pristine copy of the observing process (os.fork before the first "
+           "request); the receivers' own private keys are loaded once per process "
+           "(saml2.cryptography.asymmetric.load_pem_private_key memoised on the PEM octets); the virtual clock's now() "
+           "without zone is local wall time (local extension of env.VClock)"]
 ASSUMPTIONS = ["ideal signatures (hypotheses everify_spec / dverify_spec of C07/Proofs.v); real RSA runs in the correspondence",
                "IssueInstant is an xs:dateTime in UTC ('Z', optional fraction); other zone designators are rejected by "
                "valid_instance and appear only as the inst_ok=false shape",
                "xsd_ok / inst_ok (outcome of the XML-schema validation of the re-serialised element and of valid_instance) are "
                "inputs of the model; the harness supplies them from the shape it rendered",
                "single metadata source; which certificates metadata yields for an issuer is property C03",
+               "lives: a reload of well-formed metadata succeeds, a failed reload leaves the metadata as it was "
+               "(MetadataStore.reload), nothing else is remembered between requests (Model.run_life); the correspondence "
+               "checks all three on every life",
+               "the verdict does not depend on the time zone of the process (no such input in the model; checked by the "
+               "correspondence)",
                "base64 canonicity and percent-encoding of the detached signature are property C15"]
 
 NOW = spaccept.NOW
@@ -79,13 +249,33 @@ E5 = "https://peer5.example.org/ent.xml"     # in metadata, but only with an enc
 EU = "https://unknown.example.org/ent.xml"
 ISSUERS = {"E1": E1, "E2": E2, "E3": E3, "E4": E4, "E5": E5, "EU": EU, "none": None, "E1pad": " " + E1 + "\n"}
 MD = {"E1": ["sp"], "E2": ["attacker"], "E3": ["attacker", "other"], "E4": ["other", "attacker"], "E5": []}
+# metadata generations of the lives (what a receiver's metadata says about the requesters at some moment): G0 is MD; the
+# others roll E1's key over (new key only / both during the overlap / both in the other order), withdraw its signing key,
+# remove it from the federation, or give its OLD key to another entity
+GENS = {
+    "G0": MD,
+    "G1": dict(MD, E1=["other"]),
+    "G2": dict(MD, E1=["sp", "other"]),
+    "G3": dict(MD, E1=["other", "sp"]),
+    "G4": dict(MD, E1=[]),
+    "G5": {k: v for k, v in MD.items() if k != "E1"},
+    "G6": dict(MD, E1=["other"], E2=["sp"]),
+}
 
 SERVICE = {"AuthnRequest": "single_sign_on_service", "LogoutRequest": "single_logout_service",
            "AttributeQuery": "attribute_service", "AuthnQuery": "authn_query_service",
-           "ManageNameIDRequest": "manage_name_id_service"}
+           "ManageNameIDRequest": "manage_name_id_service", "AuthzDecisionQuery": "authz_service",
+           "AssertionIDRequest": "assertion_id_request_service", "NameIDMappingRequest": "name_id_mapping_service"}
+# every request class of request.SERVICE2REQUEST and the entry point that parses it (ArtifactResolve has an entry point,
+# Entity.parse_artifact_resolve, that does not go through _parse_request at all: see notes/C07.md)
+ENTRY = {"AuthnRequest": "parse_authn_request", "LogoutRequest": "parse_logout_request",
+         "AttributeQuery": "parse_attribute_query", "AuthnQuery": "parse_authn_query",
+         "ManageNameIDRequest": "parse_manage_name_id_request", "AuthzDecisionQuery": "parse_authz_decision_query",
+         "AssertionIDRequest": "parse_assertion_id_request", "NameIDMappingRequest": "parse_name_id_mapping_request"}
 PASSES_DETACHED = {"AuthnRequest", "LogoutRequest"}
 RK = [("idp", "AuthnRequest"), ("idp", "LogoutRequest"), ("idp", "AttributeQuery"), ("idp", "AuthnQuery"),
-      ("idp", "ManageNameIDRequest"), ("sp", "LogoutRequest"), ("sp", "ManageNameIDRequest"), ("aa", "AttributeQuery")]
+      ("idp", "ManageNameIDRequest"), ("sp", "LogoutRequest"), ("sp", "ManageNameIDRequest"), ("aa", "AttributeQuery"),
+      ("idp", "AuthzDecisionQuery"), ("idp", "AssertionIDRequest"), ("idp", "NameIDMappingRequest")]
 RECEIVER_HOST = {"idp": "https://idp.example.org", "sp": "https://sp.example.org", "aa": "https://idp.example.org"}
 
 # ---------------------------------------------------------------------------- fixtures of this property
@@ -105,8 +295,9 @@ def entity_descriptor(eid, keynames):
                 world.endpoint("AssertionConsumerService", POST, host + "/acs/post", 1)))
 
 
-def metadata_docs():
-    return [world.default_idp_md(), world.default_other_md()] + [entity_descriptor(ISSUERS[e], MD[e]) for e in sorted(MD)]
+def metadata_docs(gen="G0"):
+    md = GENS[gen]
+    return [world.default_idp_md(), world.default_other_md()] + [entity_descriptor(ISSUERS[e], md[e]) for e in sorted(md)]
 
 
 # ---------------------------------------------------------------------------- endpoint configurations
@@ -163,10 +354,10 @@ _rcv = {}
 CONTEXTS = ("idp", "sp", "aa", "aq", "pdp")
 
 
-def _build(rcv, vcert, only_md):
+def _build(rcv, vcert, only_md, gen="G0"):
     """Security context, metadata and key material are built once per (receiver type, validate_certificate,
-    only_use_keys_in_metadata); see configure() for the per-case settings."""
-    common = {"metadata_xml": metadata_docs(), "only_use_keys_in_metadata": only_md}
+    only_use_keys_in_metadata); see configure() for the per-case settings.  A life builds receivers of its own."""
+    common = {"metadata_xml": metadata_docs(gen), "only_use_keys_in_metadata": only_md}
     if vcert:
         common["validate_certificate"] = True
     if rcv in ("idp", "aa"):
@@ -213,10 +404,40 @@ def configure(r, case):
     cfg.accepted_time_diff = case["slack"]
 
 
-def receiver(case):
+def setup():
     env.install_standin()
     spaccept.CLOCK.install()
+    local_clock()
     speedups()
+    pristine()
+
+
+def local_clock():
+    """LOCAL extension of env.VClock (env.py is shared, read-only): its datetime stand-in answers now() without a zone
+    with the UTC wall time, which would hide a change from utcnow() to now() inside time_util from the time-zone
+    dimension.  Here now() without a zone is what it really is: the wall time of the process time zone."""
+    import saml2.time_util as tu
+
+    if getattr(tu.datetime, "_c07_local", False):
+        return
+    clock = spaccept.CLOCK
+
+    class LocalVDateTime(tu.datetime):
+        _c07_local = True
+
+        @classmethod
+        def now(cls, tz=None):
+            return cls.fromtimestamp(clock.now, tz)
+
+        @classmethod
+        def today(cls):
+            return cls.fromtimestamp(clock.now)
+
+    tu.datetime = LocalVDateTime
+
+
+def receiver(case):
+    setup()
     key = (case["rcv"], bool(case["vcert"]), bool(case["only_md"]))
     r = _rcv.get(key)
     if r is None:
@@ -254,11 +475,28 @@ def private_key(path):
 
 
 def speedups():
-    """the stand-in reloads the signing key on every call; give it the same per-process cache (pure function of the file)"""
+    """the stand-in reloads the signing key on every call; give it the same per-process cache (pure function of the file).
+    Building a receiver loads its OWN private key twice (33 ms each, 90 % of the cost of a Server object); a life builds
+    receivers of its own, so saml2.cryptography.asymmetric.load_pem_private_key is memoised per process on the PEM
+    octets (the receiver's own key plays no part in checking a request)."""
     m = env.standin()
     if getattr(m, "_c07_cached", False) is False:
         m._load_privkey = private_key
         m._c07_cached = True
+        import saml2.cryptography.asymmetric as asym
+
+        real, memo = asym.load_pem_private_key, {}
+
+        def load_pem_private_key(data, password=None):
+            k = (bytes(data), password)
+            if k not in memo:
+                memo[k] = real(data, password)
+            return memo[k]
+
+        asym.load_pem_private_key = load_pem_private_key
+
+
+_det = {}
 
 
 def detached(keyname, enc, rs, sa):
@@ -271,9 +509,14 @@ def detached(keyname, enc, rs, sa):
         parts.append(urlencode({"RelayState": rs}))
     parts.append(urlencode({"SigAlg": sa}))
     octets = "&".join(parts).encode("ascii")
-    key = private_key(fixtures.key_path(keyname))
-    h = _hashes().get(sa, _hashes()[SHA256])
-    return base64.b64encode(key.sign(octets, padding.PKCS1v15(), h())).decode("ascii")
+    memo = (keyname, octets)
+    if memo not in _det:
+        if len(_det) > 4000:
+            _det.clear()
+        key = private_key(fixtures.key_path(keyname))
+        h = _hashes().get(sa, _hashes()[SHA256])
+        _det[memo] = base64.b64encode(key.sign(octets, padding.PKCS1v15(), h())).decode("ascii")
+    return _det[memo]
 
 
 def issue_instant(case):
@@ -286,7 +529,51 @@ def issue_instant(case):
     return env.iso(t, case.get("frac"))
 
 
+def elem(kind):
+    return render.ELEM.get(kind) or "urn:oasis:names:tc:SAML:2.0:protocol:" + kind
+
+
+def render_request(kind, q):
+    """render.request knows five request classes; the other three of request.SERVICE2REQUEST are rendered here (LOCAL
+    helper: render.py is shared)"""
+    if kind in render.ELEM:
+        return render.request(kind, q)
+    issuer = "" if q.get("issuer") is None else "<saml:Issuer>%s</saml:Issuer>" % render.escape(q["issuer"])
+    common = "%s%s%s%s" % (render.attr("ID", q.get("id")), render.attr("Version", q.get("version", "2.0")),
+                           render.attr("IssueInstant", q.get("issue_instant")), render.attr("Destination", q.get("destination")))
+    nid = render.name_id(q.get("name_id", "subject-1"))
+    extra = ""
+    if kind == "AuthzDecisionQuery":
+        extra = render.attr("Resource", "urn:example:resource")
+        body = ('<saml:Subject>%s</saml:Subject><saml:Action Namespace="urn:oasis:names:tc:SAML:1.0:action:rwedc">Read'
+                "</saml:Action>" % nid)
+    elif kind == "AssertionIDRequest":
+        body = "<saml:AssertionIDRef>_%s</saml:AssertionIDRef>" % render.escape(q.get("name_id", "subject-1"))
+    elif kind == "NameIDMappingRequest":
+        body = nid + '<samlp:NameIDPolicy AllowCreate="true" Format="%s"/>' % render.NAMEID_TRANSIENT
+    else:
+        raise ValueError(kind)
+    return "<samlp:%s %s%s%s>%s%s%s</samlp:%s>" % (kind, render.REQ_NS, common, extra, issuer, q.get("sig_template", ""), body,
+                                                  kind)
+
+
+_xml = {}
+
+
 def render_xml(case, tweak=False):
+    """memo of _render_xml: rendering + enveloped signing is a pure function of these fields (the same signed document is
+    presented under many configurations / detached states / steps of a life)"""
+    key = json.dumps([case["actual"] or case["kind"], case["version"], issue_instant(case), dest_value(case), case["issuer"],
+                      case["env"], case["schema"], tweak], sort_keys=True)
+    x = _xml.get(key)
+    if x is None:
+        if len(_xml) > 4000:
+            _xml.clear()
+        x = _xml[key] = _render_xml(case, tweak)
+    return x
+
+
+def _render_xml(case, tweak=False):
     """The request element; tweak=True renders a different document (for 'signature over another message')."""
     kind = case["actual"] or case["kind"]
     q = {"id": "q-1", "version": case["version"], "issue_instant": issue_instant(case),
@@ -308,11 +595,11 @@ def render_xml(case, tweak=False):
             ki = ("<ds:KeyInfo><ds:X509Data><ds:X509Certificate>%s</ds:X509Certificate></ds:X509Data></ds:KeyInfo>"
                   % cert_b64(e["signer"]))
         q["sig_template"] = render.signature_template("q-1", None, c14n=c14n, transforms=tr, extra_children=ki)
-    xml = render.request(kind, q)
+    xml = render_request(kind, q)
     if case["schema"] == "extra":
         xml = xml.replace(" ID=", ' foo="bar" ID=', 1)
     if e:
-        xml = render.sign_xml(xml, e["signer"], render.ELEM[kind], "q-1")
+        xml = render.sign_xml(xml, e["signer"], elem(kind), "q-1")
         if e["state"] == "tamper":
             if kind == "AuthnRequest":
                 xml = render.tamper_text(xml, "acs/", "acz/")
@@ -350,14 +637,47 @@ VERDICT = {"Accept": 0, "UnknownBinding": 1, "UnravelError": 2, "IncorrectlySign
            "VersionMismatch": 5, "OtherError": 6, "Stale": 7}
 
 
-def observe(case):
-    rcv = receiver(case)
+TZS = [None, "JST-9", "EST5", "UTC0", "NST3:30NDT,M3.2.0,M11.1.0"]
+
+
+class process_tz:
+    """the time zone of the PROCESS around one call (os.environ["TZ"] + time.tzset(), restored afterwards); the model has
+    no such input: the IssueInstant window (and everything else) must not depend on it"""
+
+    def __init__(self, tz):
+        self.tz = tz
+
+    def __enter__(self):
+        if self.tz is None:
+            return
+        import os
+        import time
+
+        self.old = os.environ.get("TZ")
+        os.environ["TZ"] = self.tz
+        time.tzset()
+
+    def __exit__(self, *a):
+        if self.tz is None:
+            return
+        import os
+        import time
+
+        if self.old is None:
+            os.environ.pop("TZ", None)
+        else:
+            os.environ["TZ"] = self.old
+        time.tzset()
+
+
+def wire_form(case):
+    """what the requester sends: (text handed to the entry point, keyword arguments of the entry point) -- made by the
+    independent renderer, memoised"""
     wire = case["wire"] or proper_wire(case["binding"])
     xml = render_xml(case)
     enc = encode(xml, wire)
     d = case["det"]
     kw = {}
-    passed = {"rs": None, "sa": None, "sg": None}
     if d:
         signed_doc = enc if not d["otherdoc"] else encode(render_xml(case, tweak=True), wire)
         if d["signer"] == "garbage":
@@ -366,16 +686,19 @@ def observe(case):
             sg = base64.b64encode(b"\x01" * 256).decode()
         else:
             sg = detached(d["signer"], signed_doc, d["rs_signed"], d["sa_signed"])
-        passed = {"rs": d["rs"], "sa": d["sa"], "sg": sg if d["pass_sig"] else None}
         if case["kind"] in PASSES_DETACHED:
-            kw = {"relay_state": d["rs"], "sigalg": d["sa"], "signature": passed["sg"]}
+            kw = {"relay_state": d["rs"], "sigalg": d["sa"], "signature": sg if d["pass_sig"] else None}
+    return enc, kw
+
+
+def observe_request(rcv, case, wire=None):
+    """one request handed to the entry point of its class on the (configured) receiver object"""
+    enc, kw = wire or wire_form(case)
     kind, b = case["kind"], case["binding"]
-    fn = {"AuthnRequest": "parse_authn_request", "LogoutRequest": "parse_logout_request",
-          "AttributeQuery": "parse_attribute_query", "AuthnQuery": "parse_authn_query",
-          "ManageNameIDRequest": "parse_manage_name_id_request"}[kind]
     exc = None
     try:
-        res = getattr(rcv, fn)(enc, b, **kw)
+        with process_tz(case.get("tz")):
+            res = getattr(rcv, ENTRY[kind])(enc, b, **kw)
         if res is None:
             v = "Stale"
         elif getattr(res, "message", None) is not None:
@@ -389,6 +712,127 @@ def observe(case):
         # valid_instance raises NotValid or (required attribute missing) MustValueError
         v = "NotValid" if isinstance(e, NotValid) or exc == "MustValueError" else exc
     return {"verdict": v, "code": VERDICT.get(v, 99), "exc": exc}
+
+
+# A life is the life of a PROCESS.  Whatever state the code under test keeps between requests -- in objects, classes
+# or modules -- must be born and die with the life: then the observation is a function of the case alone (the worker
+# processes of the driver's pool see many cases each), a failing life replays on its own, and a life cannot disturb the
+# single requests that share its worker.  So every process that observes cases keeps a PRISTINE copy of itself (forked
+# before it has handed any request to the code under test, receivers' own keys loaded) and every life runs in a child
+# of that pristine copy.  Requests are rendered and signed in the observing process (renderer and keys are the
+# harness's own; the memos live there) and handed over with the case.
+_pristine = None
+
+
+def _send(fd, obj):
+    import os
+    import struct
+
+    data = json.dumps(obj).encode()
+    data = struct.pack("!I", len(data)) + data
+    while data:
+        data = data[os.write(fd, data):]
+
+
+def _recv(fd):
+    import os
+    import struct
+
+    def rd(n):
+        out = b""
+        while len(out) < n:
+            b = os.read(fd, n - len(out))
+            if not b:
+                return None
+            out += b
+        return out
+
+    h = rd(4)
+    if h is None:
+        return None
+    body = rd(struct.unpack("!I", h)[0])
+    return None if body is None else json.loads(body.decode())
+
+
+def pristine():
+    """(fd to write a job to, fd to read the result from) of this process's pristine copy; made on first use, which
+    setup() places before the first request of the process"""
+    global _pristine
+    import os
+
+    if _pristine is not None and _pristine[0] == os.getpid():
+        return _pristine[1:]
+    for t in ("idp", "sp"):
+        _build(t, False, True)       # loads the receivers' own private keys (memoised, see speedups)
+    job_r, job_w = os.pipe()
+    res_r, res_w = os.pipe()
+    if os.fork() == 0:
+        try:
+            os.close(job_w)
+            os.close(res_r)
+            while True:
+                job = _recv(job_r)
+                if job is None:         # the observing process is gone
+                    break
+                pid = os.fork()
+                if pid == 0:
+                    try:
+                        _send(res_w, _observe_life(job["case"], job["wires"]))
+                    except BaseException as e:  # noqa
+                        _send(res_w, {"crash": "%s: %s" % (type(e).__name__, e)})
+                    finally:
+                        os._exit(0)
+                os.waitpid(pid, 0)
+        finally:
+            os._exit(0)
+    os.close(job_r)
+    os.close(res_w)
+    _pristine = (os.getpid(), job_w, res_r)
+    return _pristine[1:]
+
+
+def observe_life(case):
+    setup()
+    job_w, res_r = pristine()
+    wires = [wire_form(o["c"]) if o["op"] == "req" else None for o in case["ops"]]
+    _send(job_w, {"case": case, "wires": wires})
+    out = _recv(res_r)
+    if out is None or "crash" in out:
+        raise RuntimeError("life was not observed: %r" % (out,))
+    return out
+
+
+def _observe_life(case, wires):
+    """receivers of its own (never shared with another case), built from their first metadata generation, and the
+    operations in order"""
+    rcvs = [_build(r["rcv"], False, bool(r["only_md"]), r["gen"]) for r in case["rcvs"]]
+    steps = []
+    for o, w in zip(case["ops"], wires):
+        r = rcvs[o["r"]]
+        if o["op"] == "req":
+            configure(r, o["c"])
+            steps.append(observe_request(r, o["c"], w))
+            continue
+        if o["op"] == "reload":
+            conf = {"inline": metadata_docs(o["gen"])}
+        else:
+            conf = {"inline": ["<md:EntityDescriptor"]} if o["how"] == "xml" else {"nosuchtype": ["x"]}
+        try:
+            if o.get("via", "entity") == "entity":
+                ok = bool(r.reload_metadata(conf))
+            else:
+                r.metadata.reload(conf)
+                ok = True
+        except Exception as e:  # noqa
+            ok = type(e).__name__
+        steps.append({"reload": ok})
+    return {"steps": steps}
+
+
+def observe(case):
+    if "ops" in case:
+        return observe_life(case)
+    return observe_request(receiver(case), case)
 
 
 # ---------------------------------------------------------------------------- abstraction -> Coq
@@ -424,19 +868,53 @@ def epl_name(rcv, kind, epcfg):
 def coq_epl(rcv, kind, epcfg):
     out = []
     for ctx, specs in epl_for(rcv, kind, epcfg):
-        sp = [Raw("(EP %s %s)" % (cq(s[0]), cqb(s[1]))) if isinstance(s, (tuple, list)) else Raw("(Bare %s)" % cq(s))
+        sp = [Raw("(EP %s %s)" % (cqs(s[0]), cqb(s[1]))) if isinstance(s, (tuple, list)) else Raw("(Bare %s)" % cqs(s))
               for s in specs]
         out.append(Raw("(%s, %s, %s)" % (cq(ctx), cq(SERVICE[kind]), cq(sp))))
     return cq(out)
 
 
+def _str_consts():
+    """the strings that occur in most cases (primary / second endpoint of every service and binding, entity ids, clock):
+    Coq spends most of a case file's time elaborating string literals, so they are defined once per file"""
+    t = {}
+    for rcv, kind in RK:
+        for w in sorted(set(SHORT.values())) + ["second"]:
+            t[url(rcv, kind, w)] = "c07_u_%s_%s_%s" % (rcv, kind, w)
+    for n, e in sorted(ISSUERS.items()):
+        if e is not None:
+            t[e] = "c07_i_" + n
+    t["rs-1"] = "c07_rs1"
+    t["2.0"] = "c07_v20"
+    for r in ("idp", "sp", "aa"):
+        t[r] = "c07_r_" + r
+    return t
+
+
+def cqs(v):
+    """cq for strings, through the constants of the preamble"""
+    if isinstance(v, str) and v in STR_CONST:
+        return Raw(STR_CONST[v])
+    return cq(v)
+
+
+def cqs_opt(v):
+    return "None" if v is None else "(Some %s)" % cqs(v)
+
+
 def preamble():
-    """constant tables of the cases (endpoint configurations, metadata, algorithm URIs), defined once per case file"""
+    """constant tables of the cases (endpoint configurations, metadata, algorithm URIs, frequent strings), defined once per
+    case file"""
     lines = ["Import ListNotations.", "Open Scope string_scope."]
+    for v, n in sorted(STR_CONST.items(), key=lambda t: t[1]):
+        lines.append("Definition %s := %s." % (n, cq(v)))
+    lines.append("Definition c07_now := %s." % cq(NOW))
     for a, n in sorted(ALG_CONST.items(), key=lambda t: t[1]):
         lines.append("Definition %s := %s." % (n, cq(a)))
-    mdl = [Raw("(%s, %s)" % (cq(ISSUERS[e]), cq([nat(KEYNUM[k]) for k in MD[e]]))) for e in sorted(MD)]
-    lines.append("Definition c07_md : list (string * list nat) := %s." % cq(mdl))
+    for g in sorted(GENS):
+        mdl = [Raw("(%s, %s)" % (cq(ISSUERS[e]), cq([nat(KEYNUM[k]) for k in GENS[g][e]]))) for e in sorted(GENS[g])]
+        lines.append("Definition c07_md_%s : list (string * list nat) := %s." % (g, cq(mdl)))
+    lines.append("Definition c07_md := c07_md_G0.")
     for rcv, kind in RK:
         for epcfg in EPCFGS:
             lines.append("Definition %s : list (string * string * list epspec) := %s." % (
@@ -449,6 +927,23 @@ def nat(n):
 
 
 def coq_case(case, obs):
+    if "ops" not in case:
+        return "C07.Corr.One (%s)" % coq_request(case, obs, "c07_md")
+    ops = []
+    for o, st in zip(case["ops"], obs["steps"]):
+        if o["op"] == "req":
+            # the metadata argument of a request inside a life is ignored by the model (Model.run_life supplies the current one)
+            ops.append("C07.Corr.LReq %s (%s)" % (nat(o["r"]), coq_request(o["c"], st, "[]")))
+        elif o["op"] == "reload":
+            # a reload of well-formed metadata is a Reload in the model whatever the real call answered: a refused
+            # reload then shows in the following requests
+            ops.append("C07.Corr.LReload %s c07_md_%s" % (nat(o["r"]), o["gen"]))
+        else:
+            ops.append("C07.Corr.LReloadFailed %s" % nat(o["r"]))
+    return "C07.Corr.Life [%s] [%s]" % ("; ".join("c07_md_" + r["gen"] for r in case["rcvs"]), ";\n ".join(ops))
+
+
+def coq_request(case, obs, mdterm):
     # CertHandler.verify_cert: returns True when validate_certificate is off; when it is on (and no
     # certificate generation is configured, which cannot be on Python 3) it raises AttributeError for every
     # certificate (finding C07-F1): no certificate passes
@@ -463,22 +958,23 @@ def coq_case(case, obs):
     d = case["det"]
     rs = sa = sg = "None"
     if d:
-        rs, sa = cq_opt(d["rs"]), opt(cqa(d["sa"]) if d["sa"] is not None else None)
+        rs, sa = cqs_opt(d["rs"]), opt(cqa(d["sa"]) if d["sa"] is not None else None)
         if not d["pass_sig"]:
             sg = "None"
         elif d["signer"] in ("garbage", "garbage2"):
             sg = "(Some None)"
         else:
-            sg = "(Some (Some (%s, %s, %s, %s)))" % (nat(KEYNUM[d["signer"]]), cq(bool(d["otherdoc"])), cq_opt(d["rs_signed"]),
+            sg = "(Some (Some (%s, %s, %s, %s)))" % (nat(KEYNUM[d["signer"]]), cq(bool(d["otherdoc"])), cqs_opt(d["rs_signed"]),
                                                      cqa(d["sa_signed"]))
     wire = {"deflate": "WDeflate", "base64": "WBase64", "soap": "WSoap", "xml": "WXml", "notb64": "WNotB64"}[
         case["wire"] or proper_wire(case["binding"])]
     issuer = ISSUERS[case["issuer"]]
-    return "C07.Corr.mk %s %s %s %s %s %s c07_md %s %s %s %s %s %s %s %s %s %s %s %s %s %s %s %s %s" % (
-        cq(case["rcv"]), epl_name(case["rcv"], case["kind"], case["epcfg"]), cq_opt(_b(case["must"])), cq_opt(_b(case["ovc"])),
-        cq_opt(case["slack"]), cq(bool(case["only_md"])), valid, cq(NOW), case["kind"],
+    return "C07.Corr.mk %s %s %s %s %s %s %s %s %s %s %s %s %s %s %s %s %s %s %s %s %s %s %s %s" % (
+        cqs(case["rcv"]), epl_name(case["rcv"], case["kind"], case["epcfg"]), cq_opt(_b(case["must"])), cq_opt(_b(case["ovc"])),
+        cq_opt(case["slack"]), cq(bool(case["only_md"])), mdterm, valid, "c07_now", case["kind"],
         opt(cqb(case["binding"]) if case["binding"] is not None else None), wire, case["actual"] or case["kind"],
-        cq(case["version"]), cq_opt(dest_value(case)), cq(NOW + case["offset"]), cq_opt(issuer if issuer else None),
+        cqs(case["version"]), cqs_opt(dest_value(case)), "c07_now" if case["offset"] == 0 else cq(NOW + case["offset"]),
+        cqs_opt(issuer if issuer else None),
         cq(xsd), cq(inst), envs, rs, sa, sg, nat(obs["code"]))
 
 
@@ -567,7 +1063,7 @@ def base(rng=None, **over):
     c = {"rcv": "idp", "kind": "AuthnRequest", "actual": None, "binding": POST, "wire": None, "must": None, "ovc": None,
          "vcert": False, "only_md": True, "slack": None, "epcfg": "default", "issuer": "E1", "env": None, "det": None,
          "envname": "absent", "detname": "absent", "dest": "primary", "version": "2.0", "offset": 0, "frac": None,
-         "schema": "ok", "tag": "base"}
+         "schema": "ok", "tz": None, "tag": "base"}
     c.update(over)
     return c
 
@@ -654,11 +1150,14 @@ def generate(ctx):
         rows = pairwise({"rk": RK, "req": REQS, "env": ENVS, "det": DETS, "binding": [REDIRECT, POST, SOAP]}, rng)
         for r in rows:
             cases.append(sig_case(rng, r["rk"], r["req"], r["binding"], r["env"], r["det"], "sig-pair"))
-        # all other dimensions valid: the signature dimensions alone decide (AuthnRequest + LogoutRequest at the idp, complete)
-        for rk in RK[:2]:
+        # all other dimensions valid: the signature dimensions alone decide.  Complete for EVERY receiver / request class:
+        # enveloped state x {POST, SOAP} x requirement, and on Redirect enveloped state x detached state x requirement
+        # (all 16 detached states for the classes whose entry point takes RelayState / SigAlg / Signature, absent /
+        # valid / garbage for the others, which cannot even be handed one)
+        for rk in RK:
             for req in REQS:
                 for envname in ENVS:
-                    for detname in DETS:
+                    for detname in (DETS if rk[1] in PASSES_DETACHED else DETS_SHORT):
                         c = base(rcv=rk[0], kind=rk[1], binding=REDIRECT, must=req[0], ovc=req[1], tag="sig-core",
                                  envname=envname, detname=detname)
                         c["env"], c["det"] = env_state(envname, "E1"), det_state(detname, "E1")
@@ -667,7 +1166,7 @@ def generate(ctx):
                         c = base(rcv=rk[0], kind=rk[1], binding=b, must=req[0], ovc=req[1], tag="sig-core", envname=envname)
                         c["env"] = env_state(envname, "E1")
                         cases.append(c)
-        for t in rng.sample(full, 500):
+        for t in rng.sample(full, 300):
             cases.append(sig_case(rng, *t, tag="sig"))
     # ---- block addr: endpoint configuration x Destination x binding ; Version x IssueInstant x skew
     for rk in (RK if ctx.thorough else [RK[0], RK[2], RK[5], RK[7]]):
@@ -687,6 +1186,10 @@ def generate(ctx):
                 if off == 86399 + (slack or 0):
                     c["frac"] = "999"
                 cases.append(signed_as_required(c))
+                # the same instant in every process time zone (east and west of UTC, explicit UTC, half-hour zone with DST)
+                if ver == "2.0":
+                    for tz in TZS[1:]:
+                        cases.append(dict(copy.deepcopy(c), tz=tz, tag="time-tz"))
     for ver in VERSIONS:
         for rk in RK:
             for signed in (False, True):
@@ -758,10 +1261,170 @@ def generate(ctx):
         c = sig_case(rng, rk, req, rng.choice([REDIRECT, POST, SOAP]), rng.choice(ENVS), rng.choice(DETS), "random")
         fill_mostly_valid(c, rng, p=0.5)
         c["vcert"] = rng.random() < 0.2
+        c["tz"] = rng.choice(TZS) if rng.random() < 0.3 else None
         c["env"] = env_state(c["envname"], c["issuer"])
         c["det"] = det_state(c["detname"], c["issuer"])
         cases.append(c)
-    return cases
+    # lives are spread evenly over the list: the driver cuts it into shards / chunks of fixed length, and a life costs as
+    # much as its requests
+    lives = gen_lives(rng, ctx.thorough)
+    out, step = [], max(1, len(cases) // max(1, len(lives)))
+    for i, c in enumerate(cases):
+        if i % step == 0 and lives:
+            out.append(lives.pop())
+        out.append(c)
+    return out + lives
+
+
+# ---------------------------------------------------------------------------- lives
+# signature paths of the probes: (receiver type, request class, binding, which signature carries the requirement)
+PATHS = [("idp", "AuthnRequest", REDIRECT, "det"), ("idp", "LogoutRequest", REDIRECT, "det"), ("idp", "AuthnRequest", POST, "env"),
+         ("idp", "LogoutRequest", SOAP, "env"), ("aa", "AttributeQuery", SOAP, "env"), ("sp", "LogoutRequest", REDIRECT, "det"),
+         ("sp", "ManageNameIDRequest", SOAP, "env"), ("idp", "NameIDMappingRequest", POST, "env")]
+PROBE_SIGNERS = ["sp", "other", "attacker"]
+
+
+def probe(path, signer, only_md=True, issuer="E1", must=True, ki=False, tz=None):
+    """one request of issuer E1 on a signature path, signed by `signer`, everything else valid"""
+    rcv, kind, b, how = path
+    c = base(rcv=rcv, kind=kind, binding=b, must=must, issuer=issuer, only_md=only_md, tz=tz, tag="probe",
+             envname="probe", detname="probe")
+    if how == "det":
+        c["det"] = dict(det_state("valid", "E1"), signer=signer)
+    else:
+        c["env"] = {"signer": signer, "state": "ok", "shape": "ok", "ki": ki}
+    return c
+
+
+def probes(r, path, only_md=True, **kw):
+    return [{"op": "req", "r": r, "c": probe(path, s, only_md, **kw)} for s in PROBE_SIGNERS]
+
+
+def life(rcvs, ops, tag):
+    return {"rcvs": rcvs, "ops": ops, "tag": tag}
+
+
+def gen_lives(rng, thorough):
+    out = []
+    names = sorted(GENS)
+    allpairs = [(a, b) for a in names for b in names if a != b]
+    pairs = allpairs if thorough else [("G0", "G1"), ("G1", "G0"), ("G0", "G2"), ("G3", "G1"), ("G0", "G4"), ("G5", "G0"),
+                                       ("G0", "G6"), ("G6", "G0")]
+    n = 0
+    # (1) key roll-over on one long-lived receiver: probe every signer, reload, probe, failed reload, probe, reload back,
+    #     probe (every request is presented several times in the life)
+    for path in PATHS:
+        for a, b in pairs:
+            n += 1
+            via = ("entity", "store")[n % 2]
+            P = lambda: probes(0, path)  # noqa: E731
+            ops = (P() + [{"op": "reload", "r": 0, "gen": b, "via": via}] + P()
+                   + [{"op": "reload_bad", "r": 0, "how": ("xml", "type")[n % 2]}] + P()
+                   + [{"op": "reload", "r": 0, "gen": a, "via": via}] + P())
+            out.append(life([{"rcv": path[0], "gen": a, "only_md": True}], ops, "life-rollover"))
+    # (2) two receiver objects with different metadata in one process (class-level / module-level state would leak)
+    for path in PATHS:
+        for a, b in (pairs if thorough else pairs[:4]):
+            n += 1
+            via = ("entity", "store")[n % 2]
+            P = lambda r: probes(r, path)  # noqa: E731
+            ops = (P(0) + P(1) + P(0) + [{"op": "reload", "r": 1, "gen": a, "via": via}] + P(1) + P(0)
+                   + [{"op": "reload", "r": 0, "gen": b, "via": via}] + P(1) + P(0))
+            out.append(life([{"rcv": path[0], "gen": a, "only_md": True}, {"rcv": path[0], "gen": b, "only_md": True}], ops,
+                            "life-two"))
+    # (3) the embedded-certificate fallback (only_use_keys_in_metadata off) is usable only while metadata has no key
+    for path in [p for p in PATHS if p[3] == "env"]:
+        for a, b in [("G0", "G4"), ("G5", "G1"), ("G4", "G5")]:
+            P = lambda: probes(0, path, only_md=False, ki=True)  # noqa: E731
+            ops = P() + [{"op": "reload", "r": 0, "gen": b, "via": "entity"}] + P() + [{"op": "reload", "r": 0, "gen": a,
+                                                                                         "via": "store"}] + P()
+            out.append(life([{"rcv": path[0], "gen": a, "only_md": False}], ops, "life-fallback"))
+    # (4) the requirement / endpoints of two receivers differ (one requires signatures, the other does not)
+    #     -- in both orders: the lenient receiver first / the strict receiver first, unsigned requests first / last
+    for path in PATHS:
+        for order in (((0, True), (1, None)), ((1, None), (0, True))):
+            for signers in ([None] + PROBE_SIGNERS, PROBE_SIGNERS + [None]):
+                ops = []
+                for k in range(2):
+                    for s in signers:
+                        for r, must in order:
+                            c = probe(path, s or "sp", must=must)
+                            if s is None:
+                                c["env"], c["det"] = None, None
+                            c["epcfg"] = ("default", "two")[r]
+                            c["dest"] = ("primary", "second")[(r + k) % 2]
+                            ops.append({"op": "req", "r": r, "c": c})
+                out.append(life([{"rcv": path[0], "gen": "G0", "only_md": True}] * 2, ops, "life-config"))
+    # (5) seeded random walks: 1-3 receivers of any type, any request (mostly valid), reloads, failed reloads, time zones
+    for _ in range(1500 if thorough else 70):
+        rcvs = [{"rcv": rng.choice(["idp", "idp", "sp", "aa"]), "gen": rng.choice(names), "only_md": rng.random() < 0.8}
+                for _ in range(rng.choice([1, 2, 2, 3]))]
+        ops = []
+        for _ in range(rng.randrange(4, 14)):
+            r = rng.randrange(len(rcvs))
+            x = rng.random()
+            if x < 0.22:
+                ops.append({"op": "reload", "r": r, "gen": rng.choice(names), "via": rng.choice(["entity", "store"])})
+            elif x < 0.3:
+                ops.append({"op": "reload_bad", "r": r, "how": rng.choice(["xml", "type"])})
+            elif x < 0.65:
+                path = rng.choice([p for p in PATHS if p[0] == rcvs[r]["rcv"]])
+                ops.append({"op": "req", "r": r, "c": probe(path, rng.choice(PROBE_SIGNERS), rcvs[r]["only_md"],
+                                                             issuer=rng.choice(["E1", "E1", "E2"]), ki=rng.random() < 0.5,
+                                                             must=rng.choice([True, True, None]),
+                                                             tz=rng.choice(TZS) if rng.random() < 0.3 else None)})
+            else:
+                rk = rng.choice([k for k in RK if k[0] == rcvs[r]["rcv"]])
+                c = sig_case(rng, rk, rng.choice(REQS), rng.choice([REDIRECT, POST, SOAP]), rng.choice(ENVS), rng.choice(DETS),
+                             "walk")
+                c["only_md"], c["vcert"] = rcvs[r]["only_md"], False
+                c["tz"] = rng.choice(TZS) if rng.random() < 0.3 else None
+                ops.append({"op": "req", "r": r, "c": c})
+        out.append(life(rcvs, ops, "life-walk"))
+    return out
+
+
+# ---------------------------------------------------------------------------- replay that stands on its own
+def _fails(cases, observed):
+    """indexes of the cases whose observed output fails the spec (Coq evaluates)"""
+    from harness import common
+
+    terms = [coq_case(c, o) for c, o in zip(cases, observed)]
+    results, _errors = common.eval_cases(PID, IMPORTS, CASE_TYPE, RUNNER, terms, tag="shrink")
+    return sorted({i for i, code in results if code >= 2})
+
+
+def shrink(case, ctx):
+    """The driver hands over the smallest failing case.  A single request that fails only because of what its worker
+    process had seen before (state kept by the code under test between requests) does not fail when replayed alone:
+    it is then replaced by the smallest failing LIFE of this run -- a life is observed in a process of its own and
+    replays as it is.  A failing life is cut down to its shortest failing prefix."""
+    try:
+        if "ops" not in case:
+            alone = life([{"rcv": case["rcv"], "gen": "G0", "only_md": case["only_md"]}], [{"op": "req", "r": 0, "c": case}],
+                         "alone")
+            if case["vcert"] or _fails([alone], [observe(alone)]):
+                return case
+            from harness import common
+
+            lives = [c for c in generate(common.Ctx(PID, ctx.tier, ctx.seed)) if "ops" in c]
+            obs = [observe(c) for c in lives]
+            bad = _fails(lives, obs)
+            if not bad:
+                return case
+            case = lives[min(bad, key=lambda i: len(json.dumps(lives[i])))]
+        # shortest failing prefix
+        lo, hi = 1, len(case["ops"])
+        while lo < hi:
+            mid = (lo + hi) // 2
+            pre = dict(case, ops=case["ops"][:mid])
+            if _fails([pre], [observe(pre)]):
+                hi = mid
+            else:
+                lo = mid + 1
+        return dict(case, ops=case["ops"][:lo])
+    except Exception:  # noqa
+        return case
 
 
 # ---------------------------------------------------------------------------- evidence helpers
@@ -776,9 +1439,20 @@ def offset_class(case):
 
 
 def nontrivial(case, obs):
+    if "ops" in case:
+        # a life is non-trivial when it has a request after a change of state or a second receiver; distinct = distinct
+        # sequence of (operation, what was presented, verdict)
+        key = [case["tag"], [(r["rcv"], r["gen"], r["only_md"]) for r in case["rcvs"]]]
+        for o, st in zip(case["ops"], obs["steps"]):
+            if o["op"] == "req":
+                key.append((o["r"], nontrivial(o["c"], st) or "plain", st["verdict"], o["c"].get("tz")))
+            else:
+                key.append((o["r"], o["op"], o.get("gen"), st["reload"]))
+        return key if len(case["rcvs"]) > 1 or any(o["op"] != "req" for o in case["ops"]) else None
     req = "cert-only" if case["ovc"] in (True, "true") else ("required" if case["must"] in (True, "true") else "optional")
     key = (case["rcv"], case["kind"], str(case["binding"]), req, case["envname"], case["detname"], case["dest"],
-           case["epcfg"], case["version"], offset_class(case), case["schema"], case["wire"], case["actual"], obs["verdict"])
+           case["epcfg"], case["version"], offset_class(case), case["schema"], case["wire"], case["actual"], obs["verdict"],
+           case.get("tz"), (case["env"] or {}).get("signer"), (case["det"] or {}).get("signer"))
     trivial = (req == "optional" and case["envname"] == "absent" and case["detname"] == "absent" and case["dest"] == "primary"
                and case["version"] == "2.0" and case["offset"] == 0 and case["schema"] == "ok" and not case["wire"]
                and not case["actual"] and case["epcfg"] == "default")
@@ -787,12 +1461,40 @@ def nontrivial(case, obs):
 
 def histogram(cases, observed):
     h = {"by_tag": {}, "verdict": {}, "kind": {}, "binding": {}, "requirement": {}, "enveloped": {}, "detached": {},
-         "destination": {}, "version": {}, "offset": {}, "epcfg": {}, "issuer": {}, "unexpected_exceptions": {}}
+         "destination": {}, "version": {}, "offset": {}, "epcfg": {}, "issuer": {}, "unexpected_exceptions": {},
+         "time_zone": {}, "lives": {"lives": 0, "requests": 0, "reloads": 0, "reloads_refused": 0, "failed_reloads": 0,
+                                    "receivers_per_life": {}, "ops_per_life": {}, "accepted_after_a_reload": 0,
+                                    "rejected_after_a_reload": 0}}
 
     def inc(d, k):
         d[str(k)] = d.get(str(k), 0) + 1
 
+    flat = []
     for c, o in zip(cases, observed):
+        if "ops" not in c:
+            flat.append((c, o))
+            continue
+        L = h["lives"]
+        L["lives"] += 1
+        inc(h["by_tag"], c["tag"])
+        inc(L["receivers_per_life"], len(c["rcvs"]))
+        inc(L["ops_per_life"], len(c["ops"]))
+        reloaded = set()
+        for op, st in zip(c["ops"], o["steps"]):
+            if op["op"] == "req":
+                L["requests"] += 1
+                flat.append((dict(op["c"], tag="life-step"), st))
+                if op["r"] in reloaded:
+                    L["accepted_after_a_reload" if st["verdict"] == "Accept" else "rejected_after_a_reload"] += 1
+            elif op["op"] == "reload":
+                L["reloads"] += 1
+                reloaded.add(op["r"])
+                if st["reload"] is not True:
+                    L["reloads_refused"] += 1
+            else:
+                L["failed_reloads"] += 1
+    for c, o in flat:
+        inc(h["time_zone"], c.get("tz"))
         inc(h["by_tag"], c["tag"])
         inc(h["verdict"], o["verdict"])
         inc(h["kind"], c["rcv"] + ":" + c["kind"])
@@ -814,4 +1516,5 @@ def explain_term(t):
     return "C07.Corr.explain (%s)" % t
 
 
+STR_CONST = _str_consts()
 IMPORTS = "From Verif Require Import C07.Model C07.Spec C07.Corr.\n" + preamble()
